@@ -133,6 +133,14 @@ func genC08(r *gen.Rand) *C08Case {
 	base := r.Pick("a", "cfg", "app")
 	// layer chain
 	nLayers := r.Range(1, 3)
+	if r.Chance(0.03) {
+		// unusual but legal names; a name near NAME_MAX fits with a short
+		// extension but not with a long one
+		base = r.Pick("svc[1]", "sp ace", "uni-é", strings.Repeat("N", 246), strings.Repeat("m", 244))
+		if len(base) > 200 {
+			nLayers = 1
+		}
+	}
 	var names []string
 	var first any
 	name := base
